@@ -482,6 +482,89 @@ theorem no_overflow (ops : List Op) (d : Dev) (hb : countRec d ops < 2 ^ 31) :
 
 example : countRec 0 exOps < 2 ^ 31 := by decide
 
+/-! ### Life cycle (round 4): the last upload of the program
+
+`internal/cmd` registers the refresh worker of the billing statistics (with `RefreshOnShutdown`)
+in the signal handler *before* the DNS service; the handler shuts down in reverse order, so the
+DNS service stops first and the shutdown `Refresh` is the last op of the program.  `refreshMu`
+makes it wait for an upload that is still in flight, hence the hypothesis "nothing in flight". -/
+
+/-- **final_upload_delivers_all.** Whatever happened before — any records, any number of
+uploads that failed or succeeded, records racing with them — if the last refresh succeeds, every
+query ever recorded for a device has been delivered, nothing is held, nothing is in flight. -/
+theorem final_upload_delivers_all (ops : List Op) (hq : (runSer St.init ops).inflight = [])
+    (d : Dev) :
+    (runSer St.init (ops ++ [.begin, .endOk 0])).delivered d = countRec d ops ∧
+    (runSer St.init (ops ++ [.begin, .endOk 0])).pending d = none ∧
+    (runSer St.init (ops ++ [.begin, .endOk 0])).inflight = [] := by
+  obtain ⟨_, _, _, hd⟩ := successful_upload_reports ops [] hq (by intro o ho; simp at ho)
+  have hdel : (runSer St.init (ops ++ [.begin, .endOk 0])).delivered d = countRec d ops := by
+    simpa using hd d
+  have hinf : (runSer St.init (ops ++ [.begin, .endOk 0])).inflight = [] := by
+    have hs := run_upload_shape ops [] (.endOk 0)
+    simp only [List.nil_append] at hs
+    rw [hs]
+    obtain ⟨bi, _, _⟩ := begin_quiescent (runSer St.init ops) hq
+    exact (endOk_single (runSer (stepSer (runSer St.init ops) .begin) [])
+      ⟨(runSer St.init ops).pending, (runSer St.init ops).last⟩ (by simpa [runSer] using bi)).2.2
+  refine ⟨hdel, ?_, hinf⟩
+  have hp := pending_exact (ops ++ [.begin, .endOk 0]) d
+  have hc : countRec d (ops ++ [.begin, .endOk 0]) = countRec d ops := by
+    simp [countRec_append, countRec]
+  rw [hdel, hc, hinf] at hp
+  simpa [view_zero] using hp
+
+/-- **final_upload_failed_holds_all.** If the last refresh fails, nothing has been lost either:
+every device is held with all its undelivered queries and the data of its most recent one (but
+the process exits with them: the statistics are not persistent). -/
+theorem final_upload_failed_holds_all (ops : List Op) (hq : (runSer St.init ops).inflight = [])
+    (d : Dev) :
+    (runSer St.init (ops ++ [.begin, .endFail 0])).delivered d = (runSer St.init ops).delivered d ∧
+    (runSer St.init (ops ++ [.begin, .endFail 0])).inflight = [] ∧
+    (runSer St.init (ops ++ [.begin, .endFail 0])).pending d =
+      view (countRec d ops - (runSer St.init ops).delivered d) (lastRec d ops) := by
+  obtain ⟨_, hd, hi, hp⟩ := failed_upload_returns ops [] hq (by intro o ho; simp at ho) d
+  exact ⟨by simpa using hd, by simpa using hi, by simpa using hp⟩
+
+/-- **late_query_stays_held.** Why the order of the shutdown matters: a query that is billed
+after the last successful upload — a DNS service that still answers while or after the billing
+statistics shut down — is recorded, held, and never delivered. -/
+theorem late_query_stays_held (ops : List Op) (hq : (runSer St.init ops).inflight = [])
+    (d : Dev) (m : Meta) :
+    countRec d (ops ++ [.begin, .endOk 0, .record d m]) = countRec d ops + 1 ∧
+    (runSer St.init (ops ++ [.begin, .endOk 0, .record d m])).delivered d = countRec d ops ∧
+    (runSer St.init (ops ++ [.begin, .endOk 0, .record d m])).pending d = some ⟨m, 1⟩ := by
+  obtain ⟨hdel, hpend, _⟩ := final_upload_delivers_all ops hq d
+  have hsplit : ops ++ [.begin, .endOk 0, .record d m] = (ops ++ [.begin, .endOk 0]) ++ [.record d m] := by
+    simp
+  refine ⟨by simp [countRec_append, countRec], ?_, ?_⟩
+  · rw [hsplit, runSer_append]
+    simp [runSer, stepSer, blocked, step, hdel]
+  · rw [hsplit, runSer_append]
+    simp [runSer, stepSer, blocked, step, record, hpend, put]
+
+example : (runSer St.init (exOps.take 6)).inflight = [] ∧
+    (runSer St.init (exOps.take 6 ++ [.begin, .endOk 0])).delivered 0 = 3 ∧
+    (runSer St.init (exOps.take 6 ++ [.begin, .endOk 0, .record 0 (exMeta 9)])).pending 0 =
+      some ⟨exMeta 9, 1⟩ := by decide
+
+/-- What the deferred function of `Refresh` does when `Upload` panics: `err` is still nil, so the
+batch is neither delivered nor remerged (and the panic goes on to the caller). -/
+def dropFlight (s : St) : St := { s with inflight := s.inflight.eraseIdx 0 }
+
+/-- **upload_panic_loses_counterexample.** A panicking uploader is *not* covered by the property:
+the batch of the panicking upload is gone.  (This is why `props/C16.json` lists "Upload does not
+panic" as an assumption; `BillStat.Upload` has no panicking path for batches the recorder
+makes: `Tie/TrC16.lean: toProtobuf_no_panic_iff`, `upload_nil_record_skipped`.) -/
+theorem upload_panic_loses_counterexample :
+    ¬ ∀ (ops : List Op) (d : Dev),
+      (dropFlight (runSer St.init ops)).delivered d + cnt (dropFlight (runSer St.init ops)).pending d
+        + sumIn (dropFlight (runSer St.init ops)).inflight d = countRec d ops := by
+  intro h
+  have := h [.record 0 (exMeta 1), .begin] 0
+  revert this
+  decide
+
 #print axioms conservation
 #print axioms conservation_serialised
 #print axioms conservation_quiescent
@@ -509,6 +592,10 @@ example : countRec 0 exOps < 2 ^ 31 := by decide
 #print axioms e2e_latest_meta
 #print axioms e2e_acknowledged_stream
 #print axioms bulk_eq_iterate
+#print axioms final_upload_delivers_all
+#print axioms final_upload_failed_holds_all
+#print axioms late_query_stays_held
+#print axioms upload_panic_loses_counterexample
 
 end Agd.BillStat
 #print axioms Agd.Tie.TrC16.translation_complete
